@@ -63,3 +63,10 @@ Definition same_parent (ctxP ctxR : octx) (p : proposal) : Prop :=
                                    ci_parts cP = ci_parts cR
   | _ => True
   end.
+
+(* a parent found when the proposal arrived is still registered when its mutex is obtained *)
+Definition parent_stays (ctx0 ctx1 : octx) (p : proposal) : Prop :=
+  match p with
+  | PSub _ parent => find_chan ctx0 parent <> None -> find_chan ctx1 parent <> None
+  | _ => True
+  end.
